@@ -113,6 +113,8 @@ type Exec struct {
 	fs       *fsModel
 	strIntern map[string]*BNode
 	allowInit *ssa.Function
+	guardI    *guardInfo
+	fpI       *fpInfo
 }
 
 func (ex *Exec) addAxiom(t *Term) { ex.addPC(t) }
@@ -409,8 +411,11 @@ func (ex *Exec) store(p Ptr, v Value) {
 	if p.obj.global != nil && len(p.path) > 0 {
 		ex.ensureGlobalInit(p.obj.global)
 	}
-	if ex.eng.guard != nil {
-		ex.eng.guard(ex, p, true)
+	if ex.guardI != nil {
+		ex.guardAccess(p, true)
+	}
+	if ex.fpI != nil {
+		ex.fpAccess(p, true)
 	}
 	if ex.h != nil && ex.h.RaceMonitor {
 		ex.raceWrite(p.obj)
@@ -423,6 +428,9 @@ func (ex *Exec) store(p Ptr, v Value) {
 // different goroutines is shared mutable state without synchronisation.
 func (ex *Exec) raceWrite(o *Obj) {
 	g, _ := ex.st["cur_goroutine"].(int)
+	if os.Getenv("VERIF_RACEDBG") != "" {
+		fmt.Printf("RACEW g=%d obj=%d %s first=%v\n", g, o.id, o.name, ex.st["go_first_obj"])
+	}
 	if g == 0 {
 		return
 	}
@@ -1260,6 +1268,10 @@ func (ex *Exec) invoke(iv IfaceV, method *types.Func, args []Value) (Value, *Pan
 func (ex *Exec) goStmt(fr *Frame, fv Value, args []Value, site ssa.Instruction) *PanicV {
 	// Sequentialisation: the goroutine is run to completion here (see DESIGN 2.7a),
 	// unless the harness asked for goroutines to be queued.
+	if ex.coop() {
+		ex.coSpawn(fv, args)
+		return nil
+	}
 	if ex.h != nil && ex.h.QueueGo {
 		if _, ok := ex.st["go_first_obj"]; !ok {
 			ex.st["go_first_obj"] = ex.objID // objects with a smaller id existed before the first goroutine started
@@ -1298,8 +1310,11 @@ func (ex *Exec) unop(fr *Frame, i *ssa.UnOp) *PanicV {
 		if p.IsNil() {
 			return ex.rtPanic("invalid memory address or nil pointer dereference")
 		}
-		if ex.eng.guard != nil {
-			ex.eng.guard(ex, p, false)
+		if ex.guardI != nil {
+			ex.guardAccess(p, false)
+		}
+		if ex.fpI != nil {
+			ex.fpAccess(p, false)
 		}
 		fr.env[i] = ex.load(p)
 	case token.NOT:
@@ -1661,8 +1676,9 @@ func mentionsHash(t *Term, memo map[int]bool) bool {
 // idealMismatch (random-oracle assumption, only when a harness declared verifrt.Ideal()):
 // a run of >= 8 consecutive bytes of one hash/MAC output cannot coincide with bytes that
 // are themselves derived from hash outputs unless they are the same bytes of one output
-// variable at the same positions (then ordinary equality decides). Bytes that are free
-// (attacker chosen, constants) are left to the solver.
+// variable at the same positions (then ordinary equality decides), nor with a constant
+// string, nor with honest fresh randomness (csrand padding). Bytes that are free (attacker
+// chosen) are left to the solver.
 func (ex *Exec) idealMismatch(as, bs []*Term) bool {
 	memo := map[int]bool{}
 	check := func(xs, ys []*Term) bool {
@@ -1677,16 +1693,31 @@ func (ex *Exec) idealMismatch(as, bs []*Term) bool {
 				return false
 			}
 		}
-		allConst := true
+		// a run of >= 8 consecutive bytes of a hash/MAC output never equals a fixed constant
+		// string, nor honest fresh randomness (csrand / crypto/rand bytes, which no party
+		// chooses): negligible probability
+		runC, runR := 0, 0
 		for _, y := range ys {
-			if !y.isConst {
-				allConst = false
-				break
+			if y.isConst {
+				runC++
+			} else {
+				runC = 0
+			}
+			if y.op == "select" && y.args[0].op == "var" && strings.HasPrefix(y.args[0].name, "rnd!") {
+				runR++
+			} else {
+				runR = 0
+			}
+			if runC >= 8 || runR >= 8 {
+				return true
 			}
 		}
-		if allConst {
-			// a hash/MAC output never equals a fixed constant string (negligible probability)
-			return true
+		// a byte read at a symbolic position (an ite over candidate bytes) may well be the
+		// aligned byte itself: the rule does not apply, the solver decides
+		for _, y := range ys {
+			if y.op == "ite" {
+				return false
+			}
 		}
 		anyDerived := false
 		aligned := true
